@@ -270,6 +270,7 @@ def runSql (c : Case) : CaseOut := Id.run do
   let mut delivered : List (Nat × Int × Int × List Nat) := []
   let mut deliveredIv : List (Int × Int × String) := []   -- (start, stop, batch) of every result line so far
   let late := cfgInt c "late" 0
+  let mut batchNew : List (String × Bool) := []   -- per delivered batch: does it bring anything new (a first delivery, a new row, a new group)?
   let grpOf (ks : List String) (k : String) : Nat := (ks.idxOf k)
   for (op, implObs) in c.ops do
     match op with
@@ -304,6 +305,7 @@ def runSql (c : Case) : CaseOut := Id.run do
               | .arr i' (some t) g' => i' == i && g' == g && decide (a ≤ t) && decide (t < b)
               | _ => false
             if (!okExtra || idl.eraseDups.length != idl.length) && bad.isNone then bad := some "re-delivery-row-not-of-this-group-and-interval"
+            batchNew := batchNew ++ [(batch, !extra.isEmpty)]
             delivered := delivered.map (fun x => if x.1 == g && x.2.1 == a && x.2.2.1 == b then (g, a, b, idl) else x)
           | none =>
             if late > 0 && seenBefore.any (fun d => d.1 == a && d.2.1 == b && d.2.2 != batch) then
@@ -313,13 +315,19 @@ def runSql (c : Case) : CaseOut := Id.run do
                 | .arr i' (some t) g' => i' == i && g' == g && decide (a ≤ t) && decide (t < b)
                 | _ => false
               if (!okRows || idl.eraseDups.length != idl.length) && bad.isNone then bad := some "re-delivery-row-not-of-this-group-and-interval"
+              batchNew := batchNew ++ [(batch, true)]
               delivered := delivered ++ [(g, a, b, idl)]
             else
+              batchNew := batchNew ++ [(batch, true)]
               delivered := delivered ++ [(g, a, b, idl)]
               emits := emits ++ [WinSpec.Ev.emit false a b idl g]
         | ["sentinel-lost"] => if bad.isNone then bad := some "sentinel-window-never-delivered"
         | _ => if bad.isNone then bad := some "unreadable-result-line"
     | _ => pure ()
+  -- a re-delivered batch (all groups of the window) exists because of a late row: some group must show it
+  if bad.isNone then
+    let batches := (batchNew.map Prod.fst).eraseDups
+    if batches.any (fun b => !(batchNew.any fun x => x.1 == b && x.2)) then bad := some "re-delivery-without-the-late-row"
   let scfg : WinSpec.Cfg := { size := size, slide := slide, ooo := ooo, lateness := 0, now := 1700000000000000000 }
   let spec := match bad with
     | some b => "fail:" ++ b
